@@ -21,6 +21,7 @@ namespace ratio
     virtual ~enum_type() = default;
 
     expr new_instance(context &ctx) override;
+    expr new_existential() override; // the values of the included enums are allowed as well..
 
   private:
     std::vector<item *> get_all_instances() const noexcept;
